@@ -27,7 +27,8 @@ PROP = {
              "under the observed flags + 5 after a dispatch, 1 when suspended), >= 4, that LY follows the LCD schedule of the same "
              "clock total, then replays the program on Core.update Sys.dev and compares registers, IME, run state, all five IF "
              "bits, DIV, LY, STAT and frames_completed after every step (programs program TMA/TIMA/TAC, STAT enables, LYC and IE "
-             "incl. the VBlank/STAT bits, start OAM DMAs, HALT on timer or STAT wake-ups); c09.blocks (jit build) "
+             "incl. the VBlank/STAT bits, start OAM DMAs, HALT on timer or STAT wake-ups, one tail in six provokes a CANCELLED "
+             "dispatch with SP = 0 - every dispatch recognisable in the outputs must leave exactly five cycles pending); c09.blocks (jit build) "
              "checks clocks = 4 x last_block_cycle_length per block and the block model; c09.frame (jit build) runs the REAL "
              "Core::run_frame twice in a child process under an alarm on NOP-sled blocks of parametrised length (incl. 1463- and "
              "2926-cycle blocks that divide the frame period): each call must return after at most two completed frames, and the "
@@ -47,7 +48,7 @@ PROP = {
                 "GbVerif.Proofs.CoreCycles", "GbVerif.Proofs.CoreStep", "GbVerif.Proofs.CoreFrame", "GbVerif.Props.C06",
                 "GbVerif.Model.Sys", "GbVerif.Model.Timer", "GbVerif.Model.Lcd", "GbVerif.Proofs.InterpFrame", "GbVerif.Proofs.SysFrame"],
     "exhaustive": False,
-    "rule": "quick 200 / thorough 6000 generated programs (1-3 subroutines, prologue programming TMA/TIMA/TAC/IE, 3-16 blocks out of "
+    "rule": "quick 200 / thorough 6000 generated programs (1-3 subroutines, prologue programming TMA/TIMA/TAC/STAT/LYC/IE, 3-16 blocks out of "
             "13 kinds, HALT/STOP/NOP tail loop) x 1000 / 1500 steps, per build; c09.frame: 7 fixed + 12 / 60 random (first block, "
             "loop block) lengths. Non-trivial = some step was suspended or ended in a dispatch (frame: a block longer than a line).",
     "assumptions": ["pixel work of the LCD (line buffers, sprite search, swap_buffers) is not in Sys.dev: it writes none of the state the CPU, "
